@@ -8,7 +8,7 @@ CLAIM = {
     "text": ("Decides the structural clauses of C02: (R1) the case/combo overlap check dominates every evaluation and the enumeration; (R2) with cases the order/alignment abstract interpretation shows every pairing aligned in "
              "all configurations, the function is evaluated at exactly one site once per setting and never by the core or while building the placeholder; settings are exactly cases x product(combos) with case values looked up by name; "
              "(R3) the nested layout uses the per-argument union (every case value added unconditionally, sorted with fallback) and a placeholder derived from an existing result, and the exported labels are the layout's own values; "
-             "(R4) str/bool are handled before generic iterable branches in parse_cases, nan_like_result, infer_shape; (R5) every value nan_like_result can return is None or NaN in a float / object container -- a fill that keeps the result's dtype (np.full_like(res, nan) on integer / bool results) is reported; (R7) parse_cases hands dict-spelled cases on with all their keys and values (a rebuild that iterates another key source or filters keys is reported); (R6) the flat / table output of a cases run pairs row k with the k-th requested setting in every configuration. Not decided: the placeholder's shape for every result kind (numpy/xarray semantics)."),
+             "(R4) str/bool are handled before generic iterable branches in parse_cases, nan_like_result, infer_shape; (R5) every value nan_like_result can return is None or NaN in a float / object container -- a fill that keeps the result's dtype (np.full_like(res, nan) on integer / bool results) is reported; (R7) parse_cases hands dict-spelled cases on with all their keys and values (a rebuild that iterates another key source or filters keys is reported); (R6) the flat / table output of a cases run pairs row k with the k-th requested setting in every configuration. (R9) _unflatten interpreted on the same window of grids with four patterns of absent locations each (156 instances): an absent location's slot holds the placeholder that was passed in, every present one its own result. Not decided: the placeholder's shape for every result kind (numpy/xarray semantics)."),
     "note": "Trusted base as C01; role names of the core's locals (case_args, combo_args, ...) are the repository's own; a renamed local ends as exit 2.",
     "technique": "static analysis: CFG dominance rules, D-ORDER abstract interpretation restricted to cases configurations, syntactic dispatch-order rules",
 }
@@ -27,6 +27,7 @@ def run(ctx):
     sweep.dispatch_rule(ctx, "C02.R4")
     sweep.case_normalisation_rule(ctx, "C02.R7")
     sweep.case_binding_rule(ctx, "C02.R8")
+    sweep.nested_placement_rule(ctx, "C02.R9", missing=True)
     sweep.row_pairing_rule(ctx, "C02.R6", title="flat / table output of a cases run: row k pairs the k-th requested setting with its own result, in every configuration")
     prog = ctx.prog
     names = [CR + "." + n for n in ("combo_runner_core", "_unflatten", "nan_like_result", "infer_shape")]
